@@ -139,6 +139,11 @@ def run_impl(pts, ref, form="array"):
     return h, (snapshot(Y) != y0 or tuple(r) != r0)
 
 
+def objclass(d):
+    """signature class of the number of objectives (known findings F26 / F27 are confined to >= 6 / >= 5 objectives)"""
+    return "<=4" if d <= 4 else "5" if d == 5 else "6+"
+
+
 def base_result(P, ref, extra_desc=()):
     return dict(ok=True, kind="oracle", clause="", sig={}, nontrivial=(len(P) >= 2 and len(ref) >= 2),
                 desc=describe(P, ref) + list(extra_desc))
@@ -158,11 +163,11 @@ def check_set(case):
     s, Pi, ri = scale_case(pts, ref, others)
     guard(m, ri, Pi)
     res = base_result(pts, ref, ["form=" + form] if form != "array" else [])
-    res["sig"] = dict(form=form)
+    res["sig"] = dict(form=form, objectives=objclass(len(ref)))
     try:
         h, mutated = run_impl(pts, ref, form)
     except Exception as e:  # nothing may raise on an admissible case
-        return dict(res, ok=False, clause="exception:" + type(e).__name__, sig=dict(clause="exception", exc=type(e).__name__, form=form),
+        return dict(res, ok=False, clause="exception:" + type(e).__name__, sig=dict(clause="exception", exc=type(e).__name__, form=form, objectives=objclass(len(ref))),
                     detail="%s: %s" % (type(e).__name__, str(e)[:300]))
     if mutated:
         return dict(res, ok=False, clause="input_mutated", detail="the caller's array / reference changed during the call")
@@ -232,7 +237,7 @@ def check_recorder(case):
     m = model()
     seen = []
     d = len(next(o for o in objs if not isinstance(o, str)))
-    res = dict(ok=True, kind="oracle", clause="", sig={}, nontrivial=(len(objs) >= 2), desc=["len=%d" % len(objs), "m=%d" % d,
+    res = dict(ok=True, kind="oracle", clause="", sig=dict(objectives=objclass(d)), nontrivial=(len(objs) >= 2), desc=["len=%d" % len(objs), "m=%d" % d,
                "fail=%d" % sum(isinstance(o, str) for o in objs)])
     for step, o in enumerate(objs):
         job = types.SimpleNamespace(objective=o if isinstance(o, str) else tuple(o))
@@ -380,6 +385,41 @@ def gen_floats(count, maxn, maxm):
     return gen
 
 
+def gen_highdim(count):
+    """>= 5 objectives on small integer ranges: many tied coordinates, points sharing a projection (equal on a block of
+    coordinates), boundary points.  This is where the dimension sweep's `ignore` flags and stored areas are exercised."""
+    def gen(rng, tier):
+        k = count if tier != "search" else count // 4
+        for i in range(k):
+            d = (5, 5, 5, 6, 6, 7)[i % 6] if tier != "search" else rng.choice([5, 6])
+            R = rng.choice([1, 2, 2, 3, 3, 4, 5])
+            style = i % 3
+            if style == 0:  # plain lattice
+                pts = [[rng.randint(0, R) for _ in range(d)] for _ in range(rng.randint(2, 8))]
+            elif style == 1:  # a group of points equal on a leading block of coordinates + a few others
+                b = rng.randint(max(1, d - 3), d - 1)
+                pre = [rng.randint(0, R) for _ in range(b)]
+                pts = [pre + [rng.randint(0, R) for _ in range(d - b)] for _ in range(rng.randint(2, 3))]
+                pts += [[rng.randint(0, R) for _ in range(d)] for _ in range(rng.randint(1, 3))]
+            else:  # copies of a leading or trailing block of a few base points
+                base = [[rng.randint(0, R) for _ in range(d)] for _ in range(rng.randint(1, 3))]
+                pts = []
+                for _ in range(rng.randint(2, 7)):
+                    bp, b = rng.choice(base), rng.randint(0, d)
+                    pts.append(bp[:b] + [rng.randint(0, R) for _ in range(d - b)] if rng.random() < 0.5
+                               else [rng.randint(0, R) for _ in range(d - b)] + bp[d - b:])
+            rng.shuffle(pts)
+            shift = rng.choice([0, 0, R, 7])
+            top = R if rng.random() < 0.7 else R + 1
+            pts = [[float(v - shift) for v in p] for p in pts]
+            ref = [float(top - shift)] * d
+            case = dict(pts=pts, ref=ref, internal=(i % 10 == 0 and top ** d <= 4096))
+            if i % 2 == 0:
+                case.update(aux(rng, pts, ref, -shift, 1))
+            yield case
+    return gen
+
+
 FORMS = ["ref_list", "ref_tuple", "fortran", "readonly", "view", "int_array_int_ref", "int_array_float_ref", "list"]
 
 
@@ -401,7 +441,7 @@ def gen_forms(count):
 def gen_recorder(count):
     def gen(rng, tier):
         for i in range(count):
-            m = rng.randint(2, 4)
+            m = rng.randint(2, 4) if i % 4 else rng.randint(5, 6)
             L = rng.randint(1, 8)
             objs = []
             for _ in range(L):
@@ -427,7 +467,7 @@ def shrink_set(case):
         for i in range(len(pts)):
             c = dict(case, pts=pts[:i] + pts[i + 1:])
             if c.get("perm"):
-                c["perm"] = None
+                c["perm"] = [k - (k > i) for k in c["perm"] if k != i]
             yield c
     if len(ref) > 1:
         for j in range(len(ref)):
@@ -458,14 +498,15 @@ def shrink_rec(case):
 def streams(tier):
     th = tier == "thorough"
     if th:
-        plan = [(1, n, None) for n in (1, 2, 3, 4)] + [(2, n, None) for n in (1, 2, 3, 4)] + [(3, 1, None), (3, 2, None), (3, 3, None), (3, 4, 150000)] \
-            + [(4, 1, None), (4, 2, None), (4, 3, 150000), (4, 4, 150000)]
+        plan = [(1, n, None) for n in (1, 2, 3, 4)] + [(2, n, None) for n in (1, 2, 3, 4)] + [(3, 1, None), (3, 2, None), (3, 3, None), (3, 4, 500000)] \
+            + [(4, 1, None), (4, 2, None), (4, 3, 300000), (4, 4, 500000)]
     else:
         plan = [(1, n, None) for n in (1, 2, 3)] + [(2, n, None) for n in (1, 2, 3)] + [(3, 1, None), (3, 2, None), (3, 3, None)] + [(4, 1, None), (4, 2, 3000), (4, 3, 3000)]
     return [
         Stream("lattice", gen_lattice(plan), check_set, shrink_set, timeout=30),
-        Stream("dyadic", gen_dyadic(3000 if th else 480, 30, 5 if th else 4), check_set, shrink_set, timeout=120),
-        Stream("floats", gen_floats(300 if th else 60, 60 if th else 30, 5 if th else 4), check_set, shrink_set, timeout=300),
+        Stream("highdim_ties", gen_highdim(120000 if th else 15000), check_set, shrink_set, timeout=60),
+        Stream("dyadic", gen_dyadic(3000 if th else 480, 30, 5), check_set, shrink_set, timeout=120),
+        Stream("floats", gen_floats(300 if th else 60, 60 if th else 30, 5), check_set, shrink_set, timeout=300),
         Stream("input_forms", gen_forms(800 if th else 160), check_set, shrink_set, timeout=30),
         Stream("recorder", gen_recorder(1500 if th else 200), check_recorder, shrink_rec, timeout=60),
     ]
